@@ -11,7 +11,18 @@ match_len, zeros[6]; "followed by: an nx_match of exactly match_len (possibly 0)
 message length".
 `struct nx_packet_in` (NXT_PACKET_IN): nicira_header, buffer_id, total_len, reason, table_id, cookie, match_len, pad[6];
 "followed by: the nx_match, padded with zeros to a multiple of 8 bytes, then exactly 2 all-zero padding bytes, then the
-Ethernet frame".  So the padding after the match is absent when `match_len` is a multiple of 8 (zero included). -/
+Ethernet frame".  So the padding after the match is absent when `match_len` is a multiple of 8 (zero included).
+
+`struct nx_action_learn` (NXAST_LEARN): type = OFPAT_VENDOR, len ("at least 24"), vendor, subtype, idle_timeout,
+hard_timeout, priority, cookie, flags, table_id, pad, fin_idle_timeout, fin_hard_timeout (32 bytes), "followed by a
+sequence of flow_mod_spec elements …, followed by enough zero bytes to bring the action's length to a multiple of 8".
+One flow_mod_spec: a 16-bit header `src << 13 | dst << 11 | n_bits` (src: 0 field, 1 immediate; dst: 0 match, 1 load,
+2 output); then the source — "if src is NX_LEARN_SRC_IMMEDIATE: (n_bits + 15) / 16 * 2 bytes, a series of 16-bit words in
+network byte order; if src is NX_LEARN_SRC_FIELD: a 32-bit nxm_header followed by a 16-bit offset" — then the destination:
+nxm_header + 16-bit offset for MATCH and LOAD, nothing for OUTPUT.
+`struct nx_action_bundle` (NXAST_BUNDLE / NXAST_BUNDLE_LOAD): type, len, vendor, subtype, algorithm, fields, basis,
+slave_type, n_slaves, ofs_nbits, dst, zero[4] (32 bytes), then n_slaves 16-bit port numbers, "followed by … zero bytes to
+make the total length a multiple of 8". -/
 namespace Pox.Spec.NX
 open Pox.Layout
 
@@ -23,10 +34,34 @@ def nx_flow_mod : Layout :=
 def nxt_packet_in : Layout :=
   ⟨OF10.ofp_header ++ [.uint "vendor" 4, .uint "subtype" 4, .uint "buffer_id" 4, .uint "total_len" 2, .uint "reason" 1, .uint "table_id" 1, .uint "cookie" 8, .uint "match_len" 2, .pad 6], .rest "match+pad+data"⟩
 
+/-- `struct nx_action_learn` (32 bytes); the tail is the flow_mod_specs ‖ pad to 8 -/
+def nx_action_learn : Layout :=
+  ⟨[.uint "type" 2, .lenSelf 2, .uint "vendor" 4, .uint "subtype" 2, .uint "idle_timeout" 2, .uint "hard_timeout" 2, .uint "priority" 2, .uint "cookie" 8, .uint "flags" 2, .uint "table_id" 1, .pad 1, .uint "fin_idle_timeout" 2, .uint "fin_hard_timeout" 2], .rest "specs+pad"⟩
+
+/-- `struct nx_action_bundle` (32 bytes); the tail is the slaves ‖ pad to 8 -/
+def nx_action_bundle : Layout :=
+  ⟨[.uint "type" 2, .lenSelf 2, .uint "vendor" 4, .uint "subtype" 2, .uint "algorithm" 2, .uint "fields" 2, .uint "basis" 2, .blob "slave_type" 4, .uint "n_slaves" 2, .uint "ofs_nbits" 2, .blob "dst" 4, .pad 4], .rest "slaves+pad"⟩
+
+/-- header word of a flow_mod_spec -/
+def learnSpecHeader (src dst nBits : Nat) : Nat := src * 8192 + dst * 2048 + nBits
+/-- bytes of an immediate source of `nBits` bits: whole 16-bit words -/
+def immBytes (nBits : Nat) : Nat := (nBits + 15) / 16 * 2
+/-- bytes of one flow_mod_spec (src 0 field / 1 immediate; dst 0 match / 1 load / 2 output) -/
+def learnSpecSize (src dst nBits : Nat) : Nat :=
+  2 + (if src = 1 then immBytes nBits else 6) + (if dst = 2 then 0 else 6)
+
 /-- number of zero bytes after an nx_match of `n` bytes: up to the next multiple of 8, none when `n` is one -/
 def matchPad (n : Nat) : Nat := (n + 7) / 8 * 8 - n
 
 theorem sizes_ok : fixedSize nx_flow_mod.fixed = 48 ∧ fixedSize nxt_packet_in.fixed = 40 := by decide
+theorem action_sizes_ok : fixedSize nx_action_learn.fixed = 32 ∧ fixedSize nx_action_bundle.fixed = 32 := by decide
+/-- an immediate is the least even number of bytes that holds `n` bits -/
+theorem immBytes_law (n : Nat) : immBytes n % 2 = 0 ∧ n ≤ 8 * immBytes n ∧ 8 * immBytes n < n + 16 := by
+  unfold immBytes; omega
+/-- the header word determines its three parts (n_bits < 1024 as the code asserts, dst < 4, src < 2) -/
+theorem learnSpecHeader_inj (s d n : Nat) (hn : n < 2048) (hd : d < 4) :
+    learnSpecHeader s d n % 2048 = n ∧ learnSpecHeader s d n / 2048 % 4 = d ∧ learnSpecHeader s d n / 8192 = s := by
+  unfold learnSpecHeader; omega
 theorem matchPad_law (n : Nat) : (n + matchPad n) % 8 = 0 ∧ matchPad n < 8 ∧ (n % 8 = 0 → matchPad n = 0) := by
   unfold matchPad; omega
 
